@@ -283,7 +283,8 @@ def lij_scaling(cfg, large):
             else:
                 obs.append(('%s:%s' % (name, nm), eq(L2[n], L1[n] * lam), dict(info, sig='lij-scaling:' + nm)))
         if src is None:
-            obs.append(('twin:%s' % name, harness.exact_eq(L2[1], L1[1] * lam * lam), {'timeout_ms': 20000}))
+            # (a false claim that stays refutable on the path where the code finds lam == 1, e.g. through equal cache keys)
+            obs.append(('twin:%s' % name, harness.exact_eq(L2[1], L1[1] * lam * lam + 1), {'timeout_ms': 20000}))
         return obs
     return fn
 
